@@ -225,6 +225,7 @@ fn exec_real(b: &mut BufFile, t: &[&str]) -> String {
 
 /// `abyss-harness rabuf-child --file F`: one line in, one line out
 pub fn child_main(path: &Path) -> i32 {
+    crate::exec::die_with_parent();
     let stdin = std::io::stdin();
     let mut out = std::io::stdout();
     let mut buf: Option<BufFile> = None;
